@@ -147,6 +147,17 @@ pub fn run(classes_path: &str, seed: u64, per_class: usize, uniform: usize, muta
         }
         cases.push(("mutated".into(), b));
     }
+    // deterministic: every valid control-transfer and stack encoding with ALL registers (and so every indirect target, stack
+    // pointer and operand address) at each value next to 0 and next to 2^64 - a step that goes nowhere sensible is still a step
+    const EXTREMES: [u64; 12] = [0, 1, 2, 3, 7, 8, 15, 16, u64::MAX, u64::MAX - 1, u64::MAX - 7, u64::MAX - 15];
+    for v in valid.iter() {
+        let m = v.instr.mnemonic();
+        if matches!(m, iced_x86::Mnemonic::Jmp | iced_x86::Mnemonic::Call | iced_x86::Mnemonic::Ret | iced_x86::Mnemonic::Push | iced_x86::Mnemonic::Pop) {
+            for k in 0..EXTREMES.len() {
+                cases.push((format!("xt{k}"), v.bytes.clone()));
+            }
+        }
+    }
     let mut f = std::io::BufWriter::new(std::fs::OpenOptions::new().create(true).append(true).open(out)?);
     let lay = Layout;
     for (id, (cls, bytes)) in cases.iter().enumerate() {
@@ -180,6 +191,11 @@ pub fn run(classes_path: &str, seed: u64, per_class: usize, uniform: usize, muta
         }
         if g.rng.gen_bool(0.2) {
             pre.pre.regs[6] = u64::MAX - g.rng.gen_range(0..16); // RSP at the very top of the address space
+        }
+        if let Some(k) = cls.strip_prefix("xt").and_then(|x| x.parse::<usize>().ok()) {
+            for r in pre.pre.regs.iter_mut() {
+                *r = EXTREMES[k % EXTREMES.len()];
+            }
         }
         // the instruction pointer is part of the state too: the last bytes of the address space, page 0, the last bytes of the
         // code area (a fetch gets fewer than 15 bytes), non-executable and unmapped memory
